@@ -727,6 +727,7 @@ def run(ctx) -> None:
     ctx.rule('V8', 'special-case stores derived from the raw text come after the shared reader')
     ctx.rule('V10', 'every input parameter is registered in ParameterDict under its own name')
     ctx.rule('V11', 'the client cache key covers the whole request text on every path (C08 P5): a cached result never stands in for a rejection')
+    ctx.rule('V12', 'ConvertUnits never stores the parameter value (only the validated store in ReadParameter does)')
     ctx.rule('V9', 'an accepted user value is stored unless it equals the current value: early returns in the numeric arms are '
                    'guarded by `input == current value` (integer arm: `== DefaultValue` is sound only while every integer '
                    'declaration starts at its default, checked over the registry)')
@@ -756,6 +757,14 @@ def run(ctx) -> None:
     # then return an earlier valid result instead of being rejected) - shared with C08 P5
     from rules.c08 import check_p5
     check_p5(Renamed(ctx, {'P5': 'V11'}))
+    # V12: only the validated store of ReadParameter may write an input's value inside Parameter.py's reading path
+    cu = ctx.repo.module('geophires_x/Parameter.py').functions.get('ConvertUnits')
+    ctx.require(cu is not None, 'Parameter.ConvertUnits not found')
+    st12 = [st for st in ast.walk(cu.node) if isinstance(st, (ast.Assign, ast.AugAssign)) and
+            any(norm(t) == f'{P}.value' for t in (st.targets if isinstance(st, ast.Assign) else [st.target]))]
+    ctx.check(not st12, 'V12', 'ConvertUnits/does-not-store-the-value', f'{cu.module.rel}:{st12[0].lineno if st12 else cu.node.lineno}',
+              f'`{norm(st12[0])[:80] if st12 else ""}` stores an unvalidated value before the range test; the reader then returns early on '
+              f'"new value == current value" and the value is never range-checked', fact='ConvertUnits returns text only')
     ctx.undecided('pint raising inside ConvertUnits for unit-suffixed inputs (see C06)',
                   'list-valued parameters (the property is about scalars): the listParameter arm warns and keeps')
     ctx.assume('the entry points reach validation only through the read_parameters methods resolved here')
